@@ -4,7 +4,7 @@ DIR=/verif
 "$DIR/run.sh" build
 for ID in "$@"; do
   for k in 1 2 3; do
-    P=/tmp/mut2/$ID.out/patch$k.diff
+    P=${MUTDIR:-/tmp/mut2}/$ID.out/patch$k.diff
     [ -f $P ] || continue
     out=$("$DIR/mutest.sh" $P $ID 2>&1)
     n=$(echo "$out" | grep -c "^VIOLATION")
